@@ -53,7 +53,7 @@ CLAIMED = {
     ref="4.11", technique="Coq proof: equivalence with a specification matcher and refinement of the trie to a finite map (nested induction); exhaustive small-scope and random differential execution",
     note="Trusted: Coq kernel, extraction+driver, harness; str.split('/') agrees with byte-level splitting at 0x2F. matcher.py is tied by correspondence only."),
  "C15": dict(
-    text="Proof: for every history of message_callback_add/replace/remove (also from inside running callbacks, snapshot semantics) and every delivered message with a valid topic name, the callbacks run are exactly the registered ones whose filter spec-matches, each once; on_message runs iff none matches; an undecodable topic runs on_message only (checker c15_ok, extracted and applied to logs of the real client).",
+    text="Proof: for every history of message_callback_add/replace/remove (also from inside running callbacks, snapshot semantics) and every delivered message with a valid topic name, handlers that raise included (with suppress_exceptions set, or when no invoked handler raises), the callbacks run are exactly the registered ones whose filter spec-matches, each once; on_message runs iff none matches; an undecodable topic runs on_message only (checker c15_ok, extracted and applied to logs of the real client). Without suppress_exceptions a raising handler propagates and cuts the dispatch short (stated and proved as such).",
     ref="4.15", technique="Coq proof: corollary of the trie refinement plus a dispatch lemma over all histories; differential execution through the real loop_read at QoS 0/1/2",
     note="Trusted as C11. Topic names containing wildcard levels (invalid per MQTT-3.3.2-2) are outside the statement; witnessed double dispatch recorded."),
  "C18": dict(
@@ -75,7 +75,7 @@ CLAIMED = {
  "C10": dict(
     text="Proof: executable model of the connection state machine (state, socket, write registration, output queue, in-callback flag, CONNECT-queued flag) with nested API calls of any depth inside every callback; for all operation lists (API calls, every inbound packet kind incl. refused CONNACK / v5 DISCONNECT / unknown packets, read and write failures, partial and blocked writes, keepalive expiry, reconnects), all callback configurations and protocol versions: is_connected() implies an open socket on which an accepting CONNACK was processed; every connection end that is not a replacement has exactly one on_disconnect, with client-generated result success iff disconnect() was called; per socket the first packet is CONNECT, exactly one CONNECT, nothing after DISCONNECT. Hypotheses are syntactic exclusions matching the open findings F-C10h/i/k (connection calls from the socket teardown/open callbacks); the full statements are refuted by witnesses.",
     ref="4.10", technique="Coq proof: invariants of a connection-state model over all operation lists with nested callback scripts; extracted trace checkers as oracle; differential execution (events + state after every operation)",
-    note="Trusted: Coq kernel, extraction+driver, harness. Callbacks do not raise; no background thread (C07); keepalive expiry is an input (C08 owns timing); partial write abstracted to 'all but the last byte' (C06 owns byte-level writes)."),
+    note="Trusted: Coq kernel, extraction+driver, harness. Callbacks do not raise; no background thread (C07); keepalive expiry is an input (C08 owns timing); partial write abstracted to 'all but the last byte' (C06 owns byte-level writes). The model reads ONE packet per loop_read(); calls that process several packets (stored QoS>0 messages raise max_packets) are judged on the implementation only by multi_packet_oracle (exploration, not proof)."),
  "C16": dict(
     text="Proof on the same connection model, socket callbacks installed: on_socket_open/close strictly alternate with the same socket object on every error path; register/unregister-write alternate and lie inside that socket's open/close; whenever an operation returns with an open socket and unsent data a write registration is outstanding (external-loop mode). For all operation lists and nested scripts except reconnect() from the socket teardown callbacks (open finding F-C16a; full statements refuted by witness).",
     ref="4.16", technique="Coq proof: alternation/nesting invariants over all operation lists with nested callback scripts; extracted checkers; differential execution",
@@ -83,7 +83,7 @@ CLAIMED = {
  "C06": dict(
     text="Proof: model of _packet_write/_packet_queue/loop_write over arbitrary send schedules (accept any k incl. 0, would-block, OSError, ValueError at any point) and arbitrary interleavings of enqueue and write operations, unbounded sizes: the bytes accepted by the transport ++ the unsent remainder = the concatenation of the queued packets in queue order (CONNECT first) - nothing lost, duplicated or reordered; nothing is offered before CONNECT is queued; a QoS 0 publish is reported (on_publish, published) exactly once and only when its last byte was accepted; unsent data implies want_write() and a requested write registration; the write loop terminates. The same statements over WebSockets for the de-framed payload of the raw bytes (generic over a transport specification, instantiated for the raw socket and for _send_impl), and every completed frame is well-formed (FIN, opcode 2, mask bit, 4-byte key, minimal length form). Plus, on the session model with the output queue, the queue is FIFO for arbitrary histories.",
     ref="4.6", technique="Coq proof: stream invariant over all send schedules and enqueue/write interleavings, generic in the transport; differential execution with exhaustive small send schedules on the real client and the real _WebsocketWrapper",
-    note="Trusted: Coq kernel, extraction+driver, harness (os.urandom proxied so the model gets the same mask keys; only _do_handshake overridden). Hypotheses: at most one CONNECT per connection; fewer than 2^63 bytes per WebSocket connection. Tie by correspondence only."),
+    note="Trusted: Coq kernel, extraction+driver, harness (os.urandom proxied so the model gets the same mask keys; only _do_handshake overridden). Hypotheses: at most one CONNECT per connection; fewer than 2^63 bytes per WebSocket connection. Tie by correspondence only. The WebSocket writer model carries _data_pending but has no control-frame operation: PONG/CLOSE replies between partial data writes are judged on the implementation only by ws_control_oracle (exploration; defect F-C06c/d found there and repaired)."),
  "C08": dict(
     text="Proof: timed model (integer virtual time; every comparison in the code is now - t >= K) of _check_keepalive/loop_misc/_send_pingreq/_handle_pingresp and the timestamp updates, for all K > 0, d >= 0 and all op lists serviced within d: while connected now - t_last_tx <= K + d (strictly less); an unanswered PINGREQ leads within K + d to a closed socket, exactly one on_disconnect(KEEPALIVE), a non-zero loop result and is_connected() false; every keepalive close is justified by an unanswered PINGREQ/CONNECT older than K (no close from silence, traffic or gaps alone); with answers arriving by K - d and no inbound backlog carried across a clock advance the client never closes on its own; K = 0: never pings, never times out. The two timeout tests are cut from the source on every run and bridged. Literal 'answered within K' clause refuted by a benign witness (tolerance <= d); open finding F-C08a (backlog) excluded explicitly.",
     ref="4.8", technique="Coq proof: timed invariants closed by lia over all op lists; timeout conditions translated from the source each run; differential execution under a virtual clock",
